@@ -54,7 +54,7 @@ def worker_init():
 
 def cases(seed, tier):
     rng = random.Random(seed * 1103515245 % (2 ** 31) + 18)
-    n = 130 if tier == "quick" else 2600
+    n = 130 if tier == "quick" else 10000
     out = [{"gen": "anchor_symmetric_grid", "seed": 1, "order": 2, "elements": "faces", "features": False, "n_smooth": 0, "cotan": True, "kind": "grid"},
            {"gen": "anchor_symmetric_grid", "seed": 2, "order": 6, "elements": "faces", "features": False, "n_smooth": 0, "cotan": True, "kind": "grid"}]
     out += [{"gen": "ff", "kind": "hinge", "seed": 1927690951, "order": 1, "elements": "vertices", "features": True, "n_smooth": 0, "cotan": False, "max_size": 4},
